@@ -283,6 +283,22 @@ def write_schedules(lines, parent, dest, limit=None, rng_seed=None):
     return len(lines), len(seen)
 
 
+def split_schedules(path, chunk=8000):
+    """Split a schedule file into pieces of at most `chunk` lines (each piece becomes its own harness run and its own
+    trace-validation run: TLC's JSON deserialisation of one huge trie is what does not scale). Returns the piece paths."""
+    lines = open(path).readlines()
+    if len(lines) <= chunk:
+        return [path]
+    out = []
+    for k in range(0, len(lines), chunk):
+        q = "%s.%d" % (path, k // chunk)
+        with open(q, "w") as f:
+            f.writelines(lines[k:k + chunk])
+        out.append(q)
+    os.remove(path)
+    return out
+
+
 def water_fill(sizes, budget):
     """Shares of a replay budget: every slice gets an equal share, what a small slice does not need goes to the
     larger ones (so small slices are always replayed completely)."""
